@@ -565,6 +565,7 @@ def model_line(case, obs, poll_ticks=P_TICKS_DEFAULT):
         "token": ({"s": ctx["tok"]} if isinstance(ctx["tok"], str) else {"i": ctx["tok"]}) if ctx["tok"] is not None else None,
         "eventsFirst": case.get("tie", "events") in ("events", "io"),
         "writer": case.get("writer", "open"), "stallUntil": case.get("stallUntil"),
+        **({"cbDur": case["cbSleep"]} if case.get("cbSleep") else {}),
         "ev": [[a, resolved_event(ev, ctx)] for i, (a, ev) in enumerate(case["ev"]) if i not in (obs.get("dropped") or [])],
     }
 
